@@ -22,7 +22,7 @@ Require Import Hdl21.Base.PyInt Hdl21.Spec.PySlice Hdl21.Model.Slice Hdl21.Model
                Hdl21.Model.C01EElab Hdl21.Model.C01FElab Hdl21.Spec.C01FNets Hdl21.Proofs.C01FProofsEnd
                Hdl21.Spec.C19Topology Hdl21.Model.C19Series Hdl21.Proofs.C19Proofs
                Hdl21.Model.C19EDesign Hdl21.Proofs.C19EProofsStep Hdl21.Proofs.C19EProofsTopo Hdl21.Proofs.C19EProofsWf
-               Hdl21.Proofs.C19EProofsWrap Hdl21.Proofs.C19EProofsEnd Hdl21.Proofs.C19EProofsTerms Hdl21.Proofs.C19EProofsNames.
+               Hdl21.Proofs.C19EProofsWrap Hdl21.Proofs.C19EProofsEnd Hdl21.Proofs.C19EProofsTerms Hdl21.Proofs.C19EProofsNames Hdl21.Proofs.C19EProofsDistinct.
 Open Scope string_scope.
 Open Scope Z_scope.
 
@@ -298,6 +298,16 @@ Theorem C19E_wrapper_exported nm io xi p : wrapper_ok nm io = true ->
        (same_net pd (NSig [] q1 k1) (NSig [] q2 k2) <-> (q1 = q2 /\ k1 = k2))).
 Proof. intros H. exact (wrapper_exported_explicit nm io H xi p). Qed.
 Print Assumptions C19E_wrapper_exported.
+
+(* a consequence: the n flattened instances of an exported stack have n different names *)
+Theorem C19E_instance_names_distinct nm io a b w n xi p nms e1 e2 :
+  series_ok nm io a b w n = true ->
+  xinfo_ok xi (series_design nm io a b w n) = true -> elab_export_model2 xi (series_design nm io a b w n) = Ok p ->
+  name_elems (sn_units nm) (Z.to_nat n) 0%N (remove_name (sn_units nm) (map fst io ++ [sn_i nm] ++ [sn_units nm])) = Ok nms ->
+  0 <= e1 < n -> 0 <= e2 < n ->
+  nth (Z.to_nat e1) nms (sn_units nm) = nth (Z.to_nat e2) nms (sn_units nm) -> e1 = e2.
+Proof. exact (series_instance_names_distinct nm io a b w n xi p nms e1 e2). Qed.
+Print Assumptions C19E_instance_names_distinct.
 
 (* ---- non-vacuity: a 4-port unit with a two-bit gate, stacked 4 times over (d, s); a unit with two-bit series ports ---- *)
 Definition ex_dev : devinfo :=
